@@ -880,6 +880,10 @@ def check_separators(ctx):
     if len(nrets) != 1:
         raise AnalysisError('JunctionTree.neighbors: expected one return')
     v = nrets[0].value
+    if isinstance(v, ast.Name):
+        vd = [a.value for a in walk_shallow(nsrc.node) if isinstance(a, ast.Assign) and len(a.targets) == 1 and U(a.targets[0]) == v.id]
+        if len(vd) == 1 and isinstance(vd[0], ast.DictComp) and not any(isinstance(l_, ast.For) for l_ in walk_shallow(nsrc.node)):
+            v = vd[0]              # the comprehension returned through a local
     ALL = ('self.maximal_cliques()', 'self.tree.nodes()', 'self.tree.nodes', 'self.tree')
     per_clique = isinstance(v, ast.DictComp) and len(v.generators) == 1 and not v.generators[0].ifs and U(v.generators[0].iter) in ALL \
         and U(v.key) == U(v.generators[0].target) and U(v.value).replace(' ', '') in ('set(self.tree.neighbors(%s))' % U(v.key), 'set(self.tree[%s])' % U(v.key),
